@@ -3,11 +3,18 @@
 // verif), then a short Write and Sum(nil) are observed, so that the wrap-around of the uint64
 // counter and lengths beyond 2^32 bits are reached without gigabyte inputs.
 //
-//   c04w gen  <seed> <tier> <cases-out> <obs-out>
-//   c04w run  <cases-in> <obs-out>
+//	c04w gen  <seed> <tier> <cases-out> <obs-out>
+//	c04w run  <cases-in> <obs-out>
 //
 // Case line:   X id <8 digest words, hex, comma separated> <length in bits, hex> <tail hex> <write hex>
 // Observation: id ok <digest returned by Sum(nil)> <length counter afterwards, hex> <tail afterwards>
+// Case line:   A id ops      history (W:<hex> | S:<kind>:<hex> | R, as in c04) on sm3.New(); every Write
+//
+//	is made from ONE caller buffer that is reused and scribbled over
+//
+// Observation: id ok <per op: w<n>/<1 if the object's tail buffer overlaps the caller's buffer after the
+//
+//	call> | s<hex>/<prefix kept> | r>
 package main
 
 import (
@@ -39,6 +46,9 @@ func runCase(line string) string {
 	f := strings.Split(line, " ")
 	id := f[1]
 	res, _ := hx.Guard(60*time.Second, func() string {
+		if f[0] == "A" {
+			return runAlias(f[2])
+		}
 		if f[0] != "X" {
 			return "BADCASE"
 		}
@@ -64,6 +74,74 @@ func runCase(line string) string {
 	return id + " " + res
 }
 
+func runAlias(ops string) string {
+	h := sm3.New()
+	shared := make([]byte, 0, 16384) // the caller's one buffer
+	var outs []string
+	for _, o := range strings.Split(ops, ",") {
+		f := strings.Split(o, ":")
+		switch f[0] {
+		case "W":
+			buf := append(shared[:0], unHexDot(f[1])...)
+			n, _ := h.Write(buf)
+			ov := 0
+			if sm3.VerifTailOverlaps(h, shared) {
+				ov = 1
+			}
+			for i := range buf {
+				buf[i] ^= 0xa5
+			}
+			outs = append(outs, fmt.Sprintf("w%d/%d", n, ov))
+		case "S":
+			orig := unHexDot(f[2])
+			var in []byte
+			switch f[1] {
+			case "n":
+				in = nil
+			case "e":
+				in = make([]byte, 0, 64)
+			case "x":
+				in = append(make([]byte, 0, len(orig)), orig...)
+			case "c":
+				in = append(make([]byte, 0, 64), orig...)
+			}
+			res := h.Sum(in)
+			kept := 0
+			if string(in) == string(orig) {
+				kept = 1
+			}
+			outs = append(outs, "s"+hex.EncodeToString(res)+"/"+strconv.Itoa(kept))
+			for i := range res { // the caller owns the result and may overwrite it
+				res[i] = 0xee
+			}
+		case "R":
+			h.Reset()
+			outs = append(outs, "r")
+		default:
+			return "BADCASE"
+		}
+	}
+	return "ok " + strings.Join(outs, ",")
+}
+
+var aliasLens = []int{0, 1, 55, 56, 57, 63, 64, 65, 119, 120, 127, 128, 129, 192, 1000}
+
+func genAliasOps(r *hx.Rng, maxOps int) string {
+	n := 2 + r.Intn(maxOps-1)
+	ops := make([]string, 0, n+1)
+	for i := 0; i < n; i++ {
+		switch k := r.Intn(10); {
+		case k < 6:
+			ops = append(ops, "W:"+hexOrDot(r.Bytes(r.Pick(aliasLens))))
+		case k < 9:
+			ops = append(ops, []string{"S:n:.", "S:e:.", "S:x:" + hexOrDot(r.Bytes(3)), "S:c:" + hexOrDot(r.Bytes(3))}[r.Intn(4)])
+		default:
+			ops = append(ops, "R")
+		}
+	}
+	return strings.Join(append(ops, "S:n:."), ",")
+}
+
 var iv = [8]uint32{0x7380166f, 0x4914b2b9, 0x172442d7, 0xda8a0600, 0xa96f30bc, 0x163138aa, 0xe38dee4d, 0xb0fb0e4e}
 
 func gen(seed uint64, tier string, o *hx.Out) {
@@ -76,6 +154,16 @@ func gen(seed uint64, tier string, o *hx.Out) {
 	reps := 1
 	if tier == "thorough" {
 		reps = 8
+	}
+	nA, maxOps := 120, 8
+	if tier == "thorough" {
+		nA, maxOps = 1000, 24
+	}
+	for i := 0; i < nA; i++ {
+		id++
+		line := fmt.Sprintf("A %d %s", id, genAliasOps(r, maxOps))
+		o.Case(line)
+		o.Obs(runCase(line))
 	}
 	for rep := 0; rep < reps; rep++ {
 		for _, base := range bases {
